@@ -11,7 +11,7 @@ func (d DPT_5001) Pack() []byte {
 	} else if d >= 100 {
 		return packU8(255)
 	} else {
-		return packU8(uint8(d * 2.55))
+		return packU8(uint8(d*2.55 + 0.5))
 	}
 }
 
@@ -43,7 +43,7 @@ func (d DPT_5003) Pack() []byte {
 	} else if d >= 360 {
 		return packU8(255)
 	} else {
-		return packU8(uint8(d * 255 / 360))
+		return packU8(uint8(d*255/360 + 0.5))
 	}
 }
 
